@@ -49,6 +49,8 @@ fn main() {
         "C02" => dispatch(&props::c02::P, &args),
         "C14" => dispatch(&props::c14::P, &args),
         "C03" => dispatch(&props::c03::P, &args),
+        "C04" => dispatch(&props::c04::P, &args),
+        "C05" => dispatch(&props::c05::P, &args),
         "C06" => dispatch(&props::c06::P, &args),
         "C07" => dispatch(&props::c07::P, &args),
         "C08" => dispatch(&props::c08::P, &args),
